@@ -17,14 +17,14 @@ from ..vloop import virtual_world
 from .c24 import cemi
 
 
-def run_session(kind, auto, schedule, hb_plan=(), seed=0, connect_plan=(), disc_plan=()):
+def run_session(kind, auto, schedule, hb_plan=(), seed=0, connect_plan=(), disc_plan=(), tun_plan=()):
     """schedule: list of (iteration, event) with event in server_disc | server_disc2 | user_disc"""
     from xknx.exceptions import CommunicationError
 
     info = {"iters": 0, "connected_iter": None}
     with virtual_world(seed) as loop:
         sim = GatewaySim(loop, kind, auto_reconnect=auto, auto_reconnect_wait=1, hb_plan=list(hb_plan),
-                         connect_plan=list(connect_plan), disc_plan=list(disc_plan))
+                         connect_plan=list(connect_plan), disc_plan=list(disc_plan), tun_plan=list(tun_plan))
         st = {"max_rtasks": 0, "user": False}
         sched = {}
         timed = []
@@ -169,6 +169,12 @@ def run(ck):
                             for d1, d2 in ((0.05, 0.5), (0.05, 1.5), (0.05, 2.5), (0.6, 1.2), (1.2, 1.3), (0.05, 3.5)) if ck.tier == "quick" else \
                                     [(a / 10, b / 10) for a in range(0, 30, 4) for b in range(a + 1, 45, 4)]:
                                 plans.append((kind, auto, [(("t", lost_t[0] / 1000 + d1), "send"), (("t", lost_t[0] / 1000 + d2), "user_disc")], ("none",) * 4, extra))
+            # a telegram whose acknowledgements never come (two tries of 1 s each) while the user disconnects: nothing may be sent, and no
+            # reconnect may start, once disconnect() has returned
+            if kind == "udp":
+                for dp in ((), ("lost",)):
+                    for d in (0.2, 0.6, 1.1, 1.5, 1.9, 2.05) if ck.tier == "quick" else [x / 20 for x in range(1, 50)]:
+                        plans.append((kind, auto, [(("t", d), "user_disc")], (), {"tun_plan": ["lost"] * 4, "disc_plan": list(dp)}))
             for hb in (["none"] * 4, ["fail"] * 4, ["ok", "none", "none", "none", "none"]):
                 plans.append((kind, auto, [], tuple(hb)))
                 plans.append((kind, auto, [(c0 + rnd.randrange(5, 40), "user_disc")], tuple(hb)))
